@@ -31,8 +31,9 @@ def numbered(i, big=0):
         import base64
 
         raw = bytes((k * 31 + i) % 256 for k in range(big))
-        return M.SetBLOBVector(device="D", name="B", state="Ok", children=[one_parts.OneBLOB(name="a", size=len(raw), format=".b%d" % i, value=base64.b64encode(raw).decode())])
-    return M.SetTextVector(device="D", name="V", state="Ok", children=[one_parts.OneText(name="a", value="m%d" % i), one_parts.OneText(name="b", value="x" * (i % 3))])
+        return M.SetBLOBVector(device="D%d" % (i % 2), name="B", state="Ok", children=[one_parts.OneBLOB(name="a", size=len(raw), format=".b%d" % i, value=base64.b64encode(raw).decode())])
+    # two device names alternate (several devices share one connection)
+    return M.SetTextVector(device="D%d" % (i % 2), name="V", state="Ok", children=[one_parts.OneText(name="a", value="m%d" % i), one_parts.OneText(name="b", value="x" * (i % 3))])
 
 
 def execute(p, ch):
@@ -42,6 +43,7 @@ def execute(p, ch):
     from mc.core import vloop as V
 
     loop = V.VLoop().install()
+    loop.auto_default_jobs = False  # jobs handed to the loop's default executor are scheduled by the explorer too
     obs = {"out": [], "errors": None, "actions": []}
     try:
         router = Router()
@@ -85,7 +87,8 @@ def execute(p, ch):
             import indi.message as M
 
             for h in handlers:  # these connections want BLOBs too
-                router.process_message(M.IndiMessage.from_string('<enableBLOB device="D">Also</enableBLOB>'), sender=h)
+                for dn in ("D0", "D1"):
+                    router.process_message(M.IndiMessage.from_string('<enableBLOB device="%s">Also</enableBLOB>' % dn), sender=h)
         remaining = list(msgs)
         paused = [False] * len(eps)
         budget = p["toggles"]
@@ -99,10 +102,14 @@ def execute(p, ch):
             if ctl is not None:
                 for j in range(min(W, len(ctl))):
                     menu.append(("job", j))
+            dctl = loop.default_ctl
+            if dctl is not None:
+                for j in range(min(W, len(dctl))):
+                    menu.append(("djob", j))
             if budget > 0:
                 for i in range(len(eps)):
                     menu.append(("toggle", i))
-            terminal = not loop.has_ready() and not remaining and (ctl is None or len(ctl) == 0)
+            terminal = not loop.has_ready() and not remaining and (ctl is None or len(ctl) == 0) and (dctl is None or len(dctl) == 0)
             if terminal:
                 menu.insert(0, ("finish",))
             c = ch.choose(len(menu), None, "menu")
@@ -120,6 +127,8 @@ def execute(p, ch):
                     router.process_message(m, sender=None)
             elif act[0] == "job":
                 ctl.run(act[1])
+            elif act[0] == "djob":
+                dctl.run(act[1])
             elif act[0] == "toggle":
                 i = act[1]
                 budget -= 1
@@ -132,6 +141,7 @@ def execute(p, ch):
             if paused[i] and i != victim:
                 ep.resume()
                 paused[i] = False
+        loop.auto_default_jobs = True
         loop.quiesce()
         obs["paused_at_end"] = list(paused)
         if tr == "tty":
